@@ -42,6 +42,13 @@ class C11(Prop):
                     yield {"k": "action", "name": "CNOT", "qubits": [c, t], "n": n, "via": "gate", "qtype": ty}
             for q in range(n):
                 yield {"k": "action", "name": ("H", "S", "X")[q % 3], "qubits": [q], "n": n, "via": "circuit", "qtype": "uint8"}
+        # placements across the 64-bit word boundary of a 66-qubit register
+        for c, t in ((62, 63), (63, 64), (64, 63), (64, 65), (65, 0), (0, 65), (63, 65)):
+            for via in ("gate", "circuit", "clifford_circuit"):
+                yield {"k": "action", "name": "CNOT", "qubits": [c, t], "n": 66, "via": via, "pkg": "py"}
+        for q in (63, 64, 65):
+            for name in ("H", "S", "X", "Y", "Z"):
+                yield {"k": "action", "name": name, "qubits": [q], "n": 66, "via": ("gate", "circuit", "clifford_circuit")[q % 3], "pkg": "py"}
         yield {"k": "ctable"}
         for n in (1, 2, 3):
             for q in range(n):
